@@ -180,6 +180,7 @@ type agg struct {
 	violCount  map[string]int
 	violOrder  []string
 	heldCases  int
+	inconEx    []string
 	inconCases int
 }
 
@@ -207,6 +208,9 @@ func (a *agg) add(r *core.Result) {
 	case core.Inconclusive:
 		a.inconCases++
 		a.incon[r.Key]++
+		if len(a.inconEx) < 6 {
+			a.inconEx = append(a.inconEx, fmt.Sprintf("case %d: %s %s", r.I, r.Key, r.Detail))
+		}
 	case core.Violated:
 		a.addViol(r.Key, r)
 		for _, m := range r.More {
@@ -596,7 +600,7 @@ func report(p *core.Prop, ctx *core.Ctx, a *agg, ncases int, wall float64) int {
 	fmt.Printf("%s %s seed=%d: cases=%d evaluations=%d distinct_nontrivial=%d held=%d inconclusive=%d new_violation_classes=%d known=%d wall=%.1fs\n  observed: %s\n",
 		p.ID, ctx.Tier, ctx.Seed, a.cases, a.evals, len(a.hashes), a.heldCases, a.inconCases, newViol, knownSeen, wall, strings.Join(evs, " "))
 	if len(a.incon) > 0 {
-		fmt.Printf("  inconclusive by reason: %v\n", a.incon)
+		fmt.Printf("  inconclusive by reason: %v  e.g. %v\n", a.incon, a.inconEx)
 	}
 	if newViol > 0 {
 		return 1
